@@ -132,6 +132,7 @@ func runC02(c *Ctx, r *Report) {
 	r.Rule("C02.R3", "table agreement: every token type an operator node can carry into needParen has an entry in ast.Precedences (needParen panics otherwise)")
 	r.Rule("C02.R4", "escape alphabets: every escape strconv.Quote can emit is decoded by the lexer's readString to the byte(s) it denotes: \\a \\b \\f \\n \\r \\t \\v to their control bytes, \\\\ and \\\" to themselves, \\x to one raw byte, \\u and \\U to a rune")
 	r.Rule("C02.R6", "a value-less return ends its block: every path of parseReturnStatement that returns without storing ReturnValue shifts no token and is selected by a test that the next token is a block closer (}, end of input, end of line) or a token with no prefix parse function (the next statement then fails to parse); otherwise `return` <newline> `x` re-parses as `return x`")
+	r.Rule("C02.R7", "the enclosing precedence is scoped: a printer that stores to PrintState.ExpressionPrecedence (directly or through needParen, which returns the previous value) stores the value it found back on every path to a return")
 	r.Rule("C02.R5", "statement separation: between two consecutive statements of a block a separator is emitted on every path in long form (space or newline) and in compact form; the 'previous statement' used for that decision is the previous sibling (it is recorded after the statement's own children are printed)")
 
 	astPkg := c.P("ast")
@@ -417,6 +418,148 @@ func runC02(c *Ctx, r *Report) {
 
 	// ---- R6 ----
 	c.checkBareReturn(r)
+
+	// ---- R7 ----
+	c.checkPrecedenceScoping(r)
+}
+
+// checkPrecedenceScoping: PrintState.ExpressionPrecedence is the precedence of the *enclosing* operator.
+// A printer that changes it for its children puts the value it found back before it returns; otherwise
+// the sibling printed next (the right operand of an infix expression) is printed under the wrong
+// precedence and loses or gains parentheses.
+func (c *Ctx) checkPrecedenceScoping(r *Report) {
+	psT := c.TypeNamed("ast", "PrintState")
+	idx := fieldIndex(psT, "ExpressionPrecedence")
+	if idx < 0 {
+		r.Undecided("C02.R7: ast.PrintState.ExpressionPrecedence not found")
+		return
+	}
+	isField := func(v ssa.Value) bool {
+		fa, ok := v.(*ssa.FieldAddr)
+		return ok && fa.Field == idx && namedStruct(fa.X.Type()) != nil && namedStruct(fa.X.Type()).Obj() == psT.Obj()
+	}
+	var fns []*ssa.Function
+	for _, fn := range c.ModuleSSAFuncs() {
+		if fn.Pkg != nil && shortPkg(fn.Pkg.Pkg) == "ast" {
+			fns = append(fns, fn)
+		}
+	}
+	storesOf := func(fn *ssa.Function) []*ssa.Store {
+		var res []*ssa.Store
+		eachInstr(fn, func(in ssa.Instruction) {
+			if st, ok := in.(*ssa.Store); ok && isField(st.Addr) {
+				res = append(res, st)
+			}
+		})
+		return res
+	}
+	// savers: functions that change the precedence and hand the previous value to their caller
+	savers := map[*ssa.Function]int{} // result index carrying the old value
+	entryLoads := func(fn *ssa.Function) map[ssa.Value]bool {
+		res := map[ssa.Value]bool{}
+		sts := storesOf(fn)
+		eachInstr(fn, func(in ssa.Instruction) {
+			ld, ok := in.(*ssa.UnOp)
+			if !ok || !isField(ld.X) {
+				return
+			}
+			for _, st := range sts {
+				if reachesInstr(st, ld) {
+					return // may observe a value written by this function
+				}
+			}
+			res[ld] = true
+		})
+		return res
+	}
+	for _, fn := range fns {
+		if len(storesOf(fn)) == 0 {
+			continue
+		}
+		entry := entryLoads(fn)
+		eachInstr(fn, func(in ssa.Instruction) {
+			ret, ok := in.(*ssa.Return)
+			if !ok {
+				return
+			}
+			for i := range ret.Results {
+				if entry[retVal(ret, i)] {
+					savers[fn] = i
+				}
+			}
+		})
+	}
+	n := 0
+	for _, fn := range fns {
+		sts := storesOf(fn)
+		var saverCalls []*ssa.Call
+		eachInstr(fn, func(in ssa.Instruction) {
+			if call, ok := in.(*ssa.Call); ok {
+				if sc := call.Common().StaticCallee(); sc != nil {
+					if _, isSaver := savers[sc]; isSaver {
+						saverCalls = append(saverCalls, call)
+					}
+				}
+			}
+		})
+		if len(sts) == 0 && len(saverCalls) == 0 {
+			continue
+		}
+		if _, isSaver := savers[fn]; isSaver {
+			r.OkWhy("C02.R7", ssaFuncName(fn), "changes the precedence and returns the previous one", c.Pos(fn.Pos()), "the callers hold the restore obligation")
+			n++
+			continue
+		}
+		entry := entryLoads(fn)
+		for _, call := range saverCalls {
+			for _, ref := range *call.Referrers() {
+				if ex, ok := ref.(*ssa.Extract); ok && ex.Index == savers[call.Common().StaticCallee()] {
+					entry[ex] = true
+				}
+			}
+		}
+		isRestore := func(in ssa.Instruction) bool {
+			st, ok := in.(*ssa.Store)
+			if !ok || !isField(st.Addr) {
+				return false
+			}
+			v := st.Val
+			if phi, ok := v.(*ssa.Phi); ok {
+				for _, e := range phi.Edges {
+					if !entry[e] {
+						return false
+					}
+				}
+				return true
+			}
+			return entry[v]
+		}
+		var changes []ssa.Instruction
+		for _, st := range sts {
+			if !isRestore(st) {
+				changes = append(changes, st)
+			}
+		}
+		for _, call := range saverCalls {
+			changes = append(changes, call)
+		}
+		cnt := 0
+		for _, ch := range changes {
+			n++
+			cnt++
+			desc := fmt.Sprintf("precedence change #%d is undone before returning", cnt)
+			bad := mustPassBefore(ch, isRestore, isReturn)
+			if bad != nil {
+				r.Fail("C02.R7", ssaFuncName(fn), desc, c.Pos(instrPos(ch)), "a return is reachable with the enclosing precedence still replaced: the next sibling (the right operand of the enclosing operator) is printed under this node's precedence and e.g. loses the parentheses it needs", c.tracePath(bad)...)
+			} else {
+				r.Ok("C02.R7", ssaFuncName(fn), desc, c.Pos(instrPos(ch)))
+			}
+		}
+	}
+	if n < 6 {
+		r.Undecided("C02.R7: only %d precedence changes found in package ast", n)
+	}
+	r.Floor("C02.R7", 6)
 }
 
 // checkBareReturn: the printer writes a value-less return as the bare keyword, and in file mode the
